@@ -561,6 +561,26 @@ def _column(draw, name, nrows, cspec):
     others = [k for k in SCALAR_TYPES if k not in want]
     if cell_kinds is want and nrows >= 2 and others and draw(st.integers(0, 3)) > 0:
         vals[draw(st.integers(1, nrows - 1))] = _scalar(draw, draw(st.sampled_from(others)))
+    if cell_kinds is want and nrows >= 2 and draw(st.sampled_from(range(4))) == 2:
+        # an "equal twin": a wrongly typed cell that is == (and hashes like) an earlier conforming cell of the column
+        # (1 / 1.0 / True): whatever de-duplicates or caches by value must still look at its type
+        twins = {"int": [1.0, True], "float": [1, True], "bool": [1, 1.0]}
+        for j0 in range(nrows - 1):
+            v0 = vals[j0]
+            kind0 = type(v0).__name__
+            if v0 is not None and kind0 in twins and v0 == 1:
+                cand = [t for t in twins[kind0] if type(t).__name__ not in want]
+                if cand:
+                    vals[draw(st.integers(j0 + 1, nrows - 1))] = draw(st.sampled_from(cand))
+                break
+        else:
+            first = next((k for k in ("int", "float", "bool") if k in want), None)
+            if first is not None:
+                conform = {"int": 1, "float": 1.0, "bool": True}[first]
+                cand = [t for t in twins[first] if type(t).__name__ not in want]
+                if cand:
+                    vals[0] = conform
+                    vals[draw(st.integers(1, nrows - 1))] = draw(st.sampled_from(cand))
     return {
         "name": name,
         "kind": kind,
